@@ -2,11 +2,30 @@
    re-uses the GFF3 importer on the open database with the live in-memory counters), delete,
    add_relation, close + reopen, and the '.bak' copy.  Follows interface.py update/delete/
    add_relation and create.py _populate_from_lines/_update_relations/_finalize.  Definitions only. *)
-From GV Require Import Base.Prelude Base.PyStr Model.Bins Model.DB Model.Parser Model.Import.
+From GV Require Import Base.Prelude Base.PyStr Model.Bins Model.DB Model.Parser Model.Import Model.GtfSpec.
 Open Scope Z_scope.
+
+(* update() routes by the dialect stored in the database: fixed for the life of the file *)
+Inductive dbkind := KGff | KGtf.
+
+(* create_db / update defaults of the GTF importer: transcript_id / gene_id, subfeature exon, inference on *)
+Definition gtf_default : gtfcfg := mkGtf TRANSCRIPT_ID GENE_ID [101;120;111;110]%N false false.
 
 Section Machine.
   Variable call : nat -> row -> option str.
+  Variable kind : dbkind.
+
+  (* one feature through the importer that update() picks, and the importer's _update_relations *)
+  Definition step_imp (strat : strategy) (spec : idspec) (st : ist) (f : row) : result ist :=
+    match kind with
+    | KGff => step_gff call strat [] spec st f
+    | KGtf => step_gtf call gtf_default strat [] spec st f
+    end.
+  Definition rel_imp (spec : idspec) (st : ist) : result ist :=
+    match kind with
+    | KGff => update_relations_gff st
+    | KGtf => update_relations_gtf call gtf_default [] spec st
+    end.
 
   (* m_disk: committed content of the file (s_auto = the autoincrements table);
      m_mem : FeatureDB._autoincrements of the open object; m_bak : content of <dbfn>.bak *)
@@ -30,7 +49,7 @@ Section Machine.
   Fixpoint run_track (strat : strategy) (spec : idspec) (fs : list row) (st : ist) : result ist * counters :=
     match fs with
     | [] => (Ok st, s_auto st)
-    | f :: fs' => match step_gff call strat [] spec st f with
+    | f :: fs' => match step_imp strat spec st f with
                   | Ok st' => run_track strat spec fs' st'
                   | Err e => (Err e, auto_after_failed_step spec st f)
                   end
@@ -61,10 +80,11 @@ Section Machine.
       | Ok st' =>
         if fails then (mkM (m_disk s) mem' bak, Err EOther)
         else
-          (* _populate_from_lines has committed; _update_relations works on the whole table *)
-          match update_relations_gff st' with
+          (* _populate_from_lines has committed; _update_relations works on the whole table (and, for GTF,
+             draws further ids for the features it derives); _finalize then persists the counters *)
+          match rel_imp spec st' with
           | Err e => (mkM (with_auto st' (s_auto (m_disk s))) mem' bak, Err e)
-          | Ok st'' => (mkM (with_auto st'' (persist (s_auto (m_disk s)) mem')) mem' bak, Ok tt)
+          | Ok st'' => (mkM (with_auto st'' (persist (s_auto (m_disk s)) (s_auto st''))) (s_auto st'') bak, Ok tt)
           end
       end
     end.
